@@ -235,6 +235,34 @@ fn solo_cases(case: &CaseSpec, result: &CaseResult) -> Result<Vec<CaseResult>, C
     Ok(out)
 }
 
+pub const ENUM_BLOCK: u64 = 31 * 64;
+
+/// C07 fault enumeration: run indices are grouped in blocks of 31 x 64; one block =
+/// one sampled graph of 1..=5 functions and one API/options choice, every non-empty
+/// subset of failing functions, 64 (or more, for smaller graphs) schedules each.
+pub fn execute_c07_enum(base: u64, index: u64) -> Executed {
+    let block = index / ENUM_BLOCK;
+    let j = index % ENUM_BLOCK;
+    let block_seed = mix(&[base, 0xC07E, block]);
+    let mut rng = Rng::new(block_seed);
+    let GenCase { mut case, sched: _ } = crate::gen::gen_case_small_try(&mut rng);
+    let n = case.graph.fns.len();
+    let subsets = (1u64 << n) - 1;
+    let subset = (j / 64) % subsets + 1;
+    for (i, g) in case.runs[0].gates.iter_mut().enumerate() {
+        g.fail = subset & (1 << i) != 0;
+    }
+    let seed = mix(&[block_seed, j]);
+    let mut srng = Rng::new(seed);
+    let sched = vec![crate::gen::gen_sched(&mut srng, &case.runs[0], Prop::C07)];
+    // user-function behaviour varies with the schedule, the failing subset does not
+    for g in case.runs[0].gates.iter_mut() {
+        g.immediate = srng.chance(1, 4);
+        g.yields = if srng.chance(1, 8) { 1 } else { 0 };
+    }
+    execute_generated(Prop::C07, seed, case, sched)
+}
+
 /// Generate + execute + evaluate the case of one seed.
 pub fn execute_seed(prop: Prop, seed: u64) -> Executed {
     let mut rng = Rng::new(seed);
